@@ -37,10 +37,24 @@ func observe(cfg Config, probes []Probe) Sig {
 			ps.Itr = "PANIC " + o.Panic
 		}
 		for _, m := range o.Matched {
-			ps.Fired = append(ps.Fired, Fired{ID: m.ID, Msg: m.Msg, Data: m.Data, Datas: m.Datas})
+			// MatchedRule.Data() is only filled when the rule has a msg; the
+			// first matched datum always carries the expanded logdata
+			data := m.Data
+			if len(m.DatasOrd) > 0 {
+				if i, j := strings.LastIndex(m.DatasOrd[0], "|data="), strings.LastIndex(m.DatasOrd[0], "|lvl="); i >= 0 && j > i {
+					data = m.DatasOrd[0][i+6 : j]
+				}
+			}
+			ps.Fired = append(ps.Fired, Fired{ID: m.ID, Msg: m.Msg, Data: data, Datas: m.Datas})
 		}
 		sort.SliceStable(ps.Fired, func(i, j int) bool { return ps.Fired[i].ID < ps.Fired[j].ID })
-		ps.TX = append(ps.TX, o.Vars["TX/TX"]...)
+		for _, kv := range o.Vars["TX/TX"] {
+			// the ten capture slots exist (empty) in every transaction
+			if k, v, _ := strings.Cut(kv, "="); v == "" && strings.Trim(k, "0123456789") == "" {
+				continue
+			}
+			ps.TX = append(ps.TX, kv)
+		}
 		sort.Strings(ps.TX)
 		s.Probes = append(s.Probes, ps)
 	}
